@@ -1199,7 +1199,9 @@ func (x *exec) checkCons(k string, m, n, o, nw int, proof []int) {
 		want != "samesize" && want != "emptyold" &&
 		!(got == "mismatch" && want == "oldmismatch") && !(got == "oldmismatch" && want == "mismatch")) {
 		cl := "cons-verify-differs-from-rfc:" + want + "-vs-" + k
-		if k == "ok" && m != n && o == nw {
+		if k == "ok" && m == n && o == nw {
+			cl = "cons-equal-sizes-proof-ignored"
+		} else if k == "ok" && m != n && o == nw {
 			cl = "cons-equal-roots-different-sizes"
 		} else if k == "ok" && m == 0 {
 			cl = "cons-old-size-0-any-root"
